@@ -152,6 +152,22 @@ for _pid, _extra in ROUND13.items():
     _l, _t, _text, _n, _r = CHECKS[_pid]
     CHECKS[_pid] = (_l, _t, _text + _extra, _n, _r)
 
+ROUND14 = {
+    "C01": " Round 14: hidden calls through a registry of handlers; imports inside a function body (known finding K2).",
+    "C02": " Round 14: strings with carriage returns and other line separators.",
+    "C07": " Round 14: partitions staged on disk whose values are stored already.",
+    "C08": " Round 14: after the fault, other calls are the first to write under the shared override key.",
+    "C10": " Round 14: function values handed over and never applied.",
+    "C13": " Round 14: a list bound by a module-level partial clone changed in place; the oracle process computes from scratch.",
+    "C14": " Round 14: hidden callees that have a namesake in the closure.",
+    "C15": " Round 14: batches under the function's own context arguments.",
+    "C18": " Round 14: configuration files addressed by bare name / relative path.",
+    "C19": " Round 14: the read-only flag arriving as text from a quoted template.",
+}
+for _pid, _extra in ROUND14.items():
+    _l, _t, _text, _n, _r = CHECKS[_pid]
+    CHECKS[_pid] = (_l, _t, _text + _extra, _n, _r)
+
 NOT_BUILT = "check not built yet in this round (design in DESIGN.md §4); will be claimed once its monitor exists"
 
 
